@@ -69,6 +69,17 @@ MUTANTS = {
         ('src/portfolio/bookkeeping/costs.rs', 'GreaterEqualZeroDecimal::try_from(old_day_max_cost.max(*new_cost))', 'GreaterEqualZeroDecimal::try_from(old_day_max_cost.min(*new_cost))')]),
     'c17_yearly_ties_move': ('C17', ['replace-only-for-strictly-larger-total'], [
         ('src/portfolio/bookkeeping/costs.rs', '                if *old_date_cost.total < *day_cost.total {', '                if *old_date_cost.total <= *day_cost.total {')]),
+    # ------------------------------------------------------------------ C19
+    'c19_six_day_window': ('C19', ['five-day-window'], [
+        ('src/peripheral/etrade_plan_pdf_tx_extract_impl.rs', 'benefit.acquire_tx_date.saturating_add(time::Duration::days(5));', 'benefit.acquire_tx_date.saturating_add(time::Duration::days(6));')]),
+    'c19_window_exclusive': ('C19', ['window-inclusive-on-trade-dates'], [
+        ('src/peripheral/etrade_plan_pdf_tx_extract_impl.rs', '                && trade.trade_date <= latest_day', '                && trade.trade_date < latest_day')]),
+    'c19_candidates_from_all_trades': ('C19', ['matched-trades-leave-the-shared-pool'], [
+        ('src/peripheral/etrade_plan_pdf_tx_extract_impl.rs', '        for trade in &leftover_trade_confs {\n            if trade.action == TxAction::Sell', '        for trade in &trade_confs {\n            if trade.action == TxAction::Sell')]),
+    'c19_errors_ignored': ('C19', ['unmatched-sell-to-cover-is-an-error'], [
+        ('src/peripheral/etrade_plan_pdf_tx_extract_impl.rs', '    if errors.is_empty() {\n        let bat = BenefitsAndTrades {', '    if errors.is_empty() || !warnings.is_empty() {\n        let bat = BenefitsAndTrades {')]),
+    'c19_zero_share_trades_dropped': ('C19', ['every-left-over-trade-yields-a-row'], [
+        ('src/peripheral/etrade_plan_pdf_tx_extract_impl.rs', '        let mut tx: CsvTx = trade.clone().into();', '        if trade.num_shares.is_zero() {\n            continue;\n        }\n        let mut tx: CsvTx = trade.clone().into();')]),
     # ------------------------------------------------------------------ C02
     'c02_window_31': ('C02', ['last-day-is-30-days'], [
         ('src/portfolio/bookkeeping/superficial_loss.rs', 'settlement_date.saturating_add(Duration::days(30))', 'settlement_date.saturating_add(Duration::days(31))')]),
